@@ -18,22 +18,36 @@ import (
 	"net/rpc"
 	"os"
 	"path/filepath"
+	"reflect"
 	"strings"
 	"sync"
 	"sync/atomic"
 	"testing"
 	"testing/synctest"
 	"time"
+	"unsafe"
 
 	plugin "github.com/hashicorp/go-plugin"
 	"github.com/hashicorp/go-plugin/verifharness/sched"
+	"github.com/hashicorp/yamux"
 )
 
 type MuxCall struct {
-	Name string `json:"name"`
-	Side string `json:"side"`
-	ID   uint32 `json:"id"`
-	At   int64  `json:"at"`
+	Name  string `json:"name"`
+	Side  string `json:"side"`
+	ID    uint32 `json:"id"`
+	At    int64  `json:"at"`
+	Abort bool   `json:"abort"` // a raw peer: open the stream, close it without writing an id
+}
+
+// sessionOf reaches the broker's yamux session (unexported field) so that the driver can play a
+// peer that gives up mid-negotiation.
+func sessionOf(b *plugin.MuxBroker) *yamux.Session {
+	v := reflect.ValueOf(b).Elem().FieldByName("session")
+	if !v.IsValid() || v.Kind() != reflect.Ptr {
+		return nil
+	}
+	return (*yamux.Session)(unsafe.Pointer(v.Pointer()))
 }
 
 type MuxHold struct {
@@ -53,6 +67,11 @@ type MuxScenario struct {
 	NextIDs int       `json:"nextids"`
 	EndAt   int64     `json:"endat"`
 	Script  []string  `json:"script"` // optional TLC-derived preference order of goroutine labels
+	// Bulk: after the connection is established the dialer waits BulkDelay ms, then writes BulkLen
+	// pattern bytes while the acceptor starts reading BulkReadDelay ms late (complete and in order?)
+	BulkLen       int `json:"bulk_len"`
+	BulkDelay     int `json:"bulk_delay"`
+	BulkReadDelay int `json:"bulk_read_delay"`
 }
 
 var muxGates = []string{
@@ -231,6 +250,22 @@ func runMuxScenario(t *testing.T, s MuxScenario, outDir string) map[string]inter
 			defer wg.Done()
 			defer returned.Add(1)
 			rec.LabelG(c.Name)
+			if c.Abort {
+				sess := sessionOf(brokers[c.Side])
+				if sess == nil {
+					sched.Fatalf("cannot reach the yamux session of the broker")
+				}
+				rec.Log("abort.open", c.Side, int64(c.ID), 0, nil)
+				st, err := sess.OpenStream()
+				if err != nil {
+					rec.Log("note", c.Side, 0, 0, map[string]interface{}{"what": "abort open failed", "err": err.Error()})
+					return
+				}
+				time.Sleep(time.Duration(c.ID%3) * time.Millisecond)
+				st.Close()
+				rec.Log("abort.closed", c.Side, int64(c.ID), 0, nil)
+				return
+			}
 			rec.Log("call.dial", c.Side, int64(c.ID), 0, nil)
 			conn, err := brokers[c.Side].Dial(c.ID)
 			r := "ok"
@@ -250,6 +285,14 @@ func runMuxScenario(t *testing.T, s MuxScenario, outDir string) map[string]inter
 			conn.SetDeadline(time.Now().Add(3 * time.Second))
 			if _, err := conn.Write(buf); err != nil {
 				rec.Log("note", c.Side, 0, 0, map[string]interface{}{"what": "dial write failed", "err": err.Error()})
+			}
+			if s.BulkLen > 0 {
+				time.Sleep(time.Duration(s.BulkDelay) * time.Millisecond)
+				conn.SetDeadline(time.Time{})
+				if n, err := conn.Write(pattern(dialIdx[c.Name]+1000, s.BulkLen)); err != nil {
+					rec.Log("note", c.Side, 0, 0, map[string]interface{}{"what": "bulk write failed", "err": err.Error(), "n": n})
+				}
+				conn.SetDeadline(time.Now().Add(20 * time.Second))
 			}
 			// wait for the acceptor's echo of our index so that "arrives only at that peer" is two-way
 			var back [1]byte
@@ -296,6 +339,16 @@ func runMuxScenario(t *testing.T, s MuxScenario, outDir string) map[string]inter
 				}
 			}
 			intact := string(buf[1:]) == string(pattern(idx, xferLen))
+			if s.BulkLen > 0 && intact {
+				time.Sleep(time.Duration(s.BulkDelay+s.BulkReadDelay) * time.Millisecond)
+				conn.SetDeadline(time.Now().Add(20 * time.Second))
+				big := make([]byte, s.BulkLen)
+				n, err := io.ReadFull(conn, big)
+				if err != nil || string(big) != string(pattern(idx+1000, s.BulkLen)) {
+					intact = false
+					rec.Log("note", c.Side, 0, 0, map[string]interface{}{"what": "bulk read short or corrupt", "n": n, "err": fmt.Sprint(err)})
+				}
+			}
 			rec.Log("xfer", c.Side, int64(c.ID), 0, map[string]interface{}{"acc": c.Name, "dial": name, "intact": intact})
 			conn.Write([]byte{byte(idx)})
 			conn.Close()
@@ -474,6 +527,9 @@ func runMuxScenario(t *testing.T, s MuxScenario, outDir string) map[string]inter
 	c2.Close()
 	wgDone := make(chan struct{})
 	go func() { wg.Wait(); close(wgDone) }()
+	synctest.Wait()
+	// expiry handlers and accepts that were still waiting end by their own 5 s timers
+	time.Sleep(6 * time.Second)
 	synctest.Wait()
 	select {
 	case <-wgDone:
